@@ -542,7 +542,7 @@ func (s *Sorts) zeroOfSort(srt string, t types.Type) (Term, error) {
 
 const smtPrelude = `(set-option :produce-models true)
 (set-logic ALL)
-(declare-datatypes ((Path 0)) (((PNil) (PF (pf_p Path) (pf_i Int)) (PE (pe_p Path) (pe_i (_ BitVec 64))))))
+(declare-datatypes ((Path 0)) (((PNil) (PT (pt_tag Int)) (PF (pf_p Path) (pf_i Int)) (PE (pe_p Path) (pe_i (_ BitVec 64))))))
 (declare-datatypes ((Ptr 0)) (((mkptr (alloc Int) (path Path)))))
 (declare-datatypes ((Slice 0)) (((mkslice (sptr Ptr) (slen (_ BitVec 64)) (scap (_ BitVec 64))))))
 (declare-sort Str 0)
@@ -559,35 +559,42 @@ const smtPrelude = `(set-option :produce-models true)
 (define-fun nilslice () Slice (mkslice nilptr (_ bv0 64) (_ bv0 64)))
 (define-fun fieldptr ((p Ptr) (k Int)) Ptr (mkptr (alloc p) (PF (path p) k)))
 (define-fun elemptr ((p Ptr) (i (_ BitVec 64))) Ptr (mkptr (alloc p) (PE (pe_p (path p)) (bvadd (pe_i (path p)) i))))
+(define-fun inr0 ((p Path) (bp Path) (lo (_ BitVec 64)) (hi (_ BitVec 64))) Bool
+  (and ((_ is PE) p) (= (pe_p p) (pe_p bp)) (bvule lo (bvsub (pe_i p) (pe_i bp))) (bvult (bvsub (pe_i p) (pe_i bp)) hi)))
+(define-fun inr1 ((p Path) (bp Path) (lo (_ BitVec 64)) (hi (_ BitVec 64))) Bool
+  (or (inr0 p bp lo hi) (and ((_ is PF) p) (inr0 (pf_p p) bp lo hi)) (and ((_ is PE) p) (inr0 (pe_p p) bp lo hi))))
+(define-fun inr2 ((p Path) (bp Path) (lo (_ BitVec 64)) (hi (_ BitVec 64))) Bool
+  (or (inr0 p bp lo hi) (and ((_ is PF) p) (inr1 (pf_p p) bp lo hi)) (and ((_ is PE) p) (inr1 (pe_p p) bp lo hi))))
+(define-fun inr3 ((p Path) (bp Path) (lo (_ BitVec 64)) (hi (_ BitVec 64))) Bool
+  (or (inr0 p bp lo hi) (and ((_ is PF) p) (inr2 (pf_p p) bp lo hi)) (and ((_ is PE) p) (inr2 (pe_p p) bp lo hi))))
 (define-fun inrange ((q Ptr) (p Ptr) (lo (_ BitVec 64)) (hi (_ BitVec 64))) Bool
-  (and (= (alloc q) (alloc p)) ((_ is PE) (path q)) (= (pe_p (path q)) (pe_p (path p)))
-       (bvule lo (bvsub (pe_i (path q)) (pe_i (path p)))) (bvult (bvsub (pe_i (path q)) (pe_i (path p))) hi)))
+  (and (= (alloc q) (alloc p)) (inr3 (path q) (path p) lo hi)))
 (define-fun rebase0 ((p Path) (np Path) (no (_ BitVec 64))) Path
-  (ite (and ((_ is PE) p) (= (pe_p p) PNil)) (PE np (bvadd no (pe_i p))) p))
+  (ite (and ((_ is PE) p) ((_ is PT) (pe_p p))) (PE np (bvadd no (pe_i p))) p))
 (define-fun rootidx0 ((p Path)) (_ BitVec 64)
-  (ite (and ((_ is PE) p) (= (pe_p p) PNil)) (pe_i p) #xffffffffffffffff))
+  (ite (and ((_ is PE) p) ((_ is PT) (pe_p p))) (pe_i p) #xffffffffffffffff))
 (define-fun rebase1 ((p Path) (np Path) (no (_ BitVec 64))) Path
-  (ite (and ((_ is PE) p) (= (pe_p p) PNil)) (PE np (bvadd no (pe_i p)))
+  (ite (and ((_ is PE) p) ((_ is PT) (pe_p p))) (PE np (bvadd no (pe_i p)))
   (ite ((_ is PF) p) (PF (rebase0 (pf_p p) np no) (pf_i p))
   (ite ((_ is PE) p) (PE (rebase0 (pe_p p) np no) (pe_i p)) p))))
 (define-fun rootidx1 ((p Path)) (_ BitVec 64)
-  (ite (and ((_ is PE) p) (= (pe_p p) PNil)) (pe_i p)
+  (ite (and ((_ is PE) p) ((_ is PT) (pe_p p))) (pe_i p)
   (ite ((_ is PF) p) (rootidx0 (pf_p p))
   (ite ((_ is PE) p) (rootidx0 (pe_p p)) #xffffffffffffffff))))
 (define-fun rebase2 ((p Path) (np Path) (no (_ BitVec 64))) Path
-  (ite (and ((_ is PE) p) (= (pe_p p) PNil)) (PE np (bvadd no (pe_i p)))
+  (ite (and ((_ is PE) p) ((_ is PT) (pe_p p))) (PE np (bvadd no (pe_i p)))
   (ite ((_ is PF) p) (PF (rebase1 (pf_p p) np no) (pf_i p))
   (ite ((_ is PE) p) (PE (rebase1 (pe_p p) np no) (pe_i p)) p))))
 (define-fun rootidx2 ((p Path)) (_ BitVec 64)
-  (ite (and ((_ is PE) p) (= (pe_p p) PNil)) (pe_i p)
+  (ite (and ((_ is PE) p) ((_ is PT) (pe_p p))) (pe_i p)
   (ite ((_ is PF) p) (rootidx1 (pf_p p))
   (ite ((_ is PE) p) (rootidx1 (pe_p p)) #xffffffffffffffff))))
 (define-fun rebase3 ((p Path) (np Path) (no (_ BitVec 64))) Path
-  (ite (and ((_ is PE) p) (= (pe_p p) PNil)) (PE np (bvadd no (pe_i p)))
+  (ite (and ((_ is PE) p) ((_ is PT) (pe_p p))) (PE np (bvadd no (pe_i p)))
   (ite ((_ is PF) p) (PF (rebase2 (pf_p p) np no) (pf_i p))
   (ite ((_ is PE) p) (PE (rebase2 (pe_p p) np no) (pe_i p)) p))))
 (define-fun rootidx3 ((p Path)) (_ BitVec 64)
-  (ite (and ((_ is PE) p) (= (pe_p p) PNil)) (pe_i p)
+  (ite (and ((_ is PE) p) ((_ is PT) (pe_p p))) (pe_i p)
   (ite ((_ is PF) p) (rootidx2 (pf_p p))
   (ite ((_ is PE) p) (rootidx2 (pe_p p)) #xffffffffffffffff))))
 (define-fun popcnt64 ((x (_ BitVec 64))) (_ BitVec 64)
